@@ -129,14 +129,14 @@ Proof.
 Qed.
 
 (* Handle::reopen(flags) *)
-Theorem run_reopen pf t fd o exp flags :
+Theorem run_reopen_strong pf t fd o exp flags :
   tget t (ph_fd gh) = Some (PB s) ->
   tget t fd = Some o -> (o < PB s)%nat -> FSModel.link_body s o = None ->
   find_path s o = Some exp -> N.leb READLINK_BUF (N.of_nat (length (render rp exp))) = false ->
   (* flags the library accepts, and that fit the object (O_DIRECTORY only on a directory) *)
   (intersects (without flags REOPEN_REMOVED) OPEN_FOLLOW_REFUSED || has_nz (without flags REOPEN_REMOVED) OPEN_FOLLOW_REFUSED_CONTAINS) = false ->
   (has (N.lor (N.lor (without flags REOPEN_REMOVED) OPENAT_FORCED) O_LARGEFILE) O_DIRECTORY && negb (obj_is_dir s o)) = false ->
-  exists nfd, run t (reopen fz true (S pf) gh fd flags) = Done ((nfd, o) :: t) (Ok nfd).
+  exists nfd, run t (reopen fz true (S pf) gh fd flags) = Done ((nfd, o) :: t) (Ok nfd) /\ tfind t nfd = None /\ (0 <= nfd)%Z.
 Proof.
   intros HP Hfd Holt Hnl Hpath Hlen Hacc Hdir.
   pose proof (tget_pos _ _ _ Hfd) as Hpos.
@@ -182,7 +182,11 @@ Proof.
   unfold nm. rewrite parse_dec_dec, Z2N.id by exact Hpos. rewrite Hfd1, Hdir.
   cbn [as_fd]. pose proof (fresh_ge3 t1). destruct (Z.leb_spec 0 (fresh t1)); [|lia]. cbn [Static.run]. cbv iota.
   cbn [bind Static.run]. cbv beta iota. rewrite (run_bind s rp), run_close. cbn [Static.run].
-  exists (fresh t1). f_equal.
+  exists (fresh t1). split.
+  2:{ split; [|pose proof (fresh_ge3 t1); lia].
+      destruct (tfind t (fresh t1)) as [x|] eqn:E; [|reflexivity]. exfalso. apply tfind_in in E.
+      pose proof (fresh_gt t1 (fresh t1) x (or_intror E)). lia. }
+  f_equal.
   (* closing the fd directory: only the new descriptor remains on top of t *)
   unfold t1. cbn [tdel filter fst].
   assert (Hne : fresh ((pfd, P_FDDIR s) :: t) <> pfd).
@@ -191,6 +195,19 @@ Proof.
   rewrite Z.eqb_refl. cbn [negb]. f_equal.
   apply tdel_notin. destruct (tfind t pfd) as [x|] eqn:E; [|reflexivity].
   apply tfind_in, fresh_gt in E. pose proof (fresh_gt ((fresh t, P_THREAD s) :: t) (fresh t) _ (or_introl eq_refl)). unfold pfd in *. lia.
+Qed.
+
+Theorem run_reopen pf t fd o exp flags :
+  tget t (ph_fd gh) = Some (PB s) ->
+  tget t fd = Some o -> (o < PB s)%nat -> FSModel.link_body s o = None ->
+  find_path s o = Some exp -> N.leb READLINK_BUF (N.of_nat (length (render rp exp))) = false ->
+  (* flags the library accepts, and that fit the object (O_DIRECTORY only on a directory) *)
+  (intersects (without flags REOPEN_REMOVED) OPEN_FOLLOW_REFUSED || has_nz (without flags REOPEN_REMOVED) OPEN_FOLLOW_REFUSED_CONTAINS) = false ->
+  (has (N.lor (N.lor (without flags REOPEN_REMOVED) OPENAT_FORCED) O_LARGEFILE) O_DIRECTORY && negb (obj_is_dir s o)) = false ->
+  exists nfd, run t (reopen fz true (S pf) gh fd flags) = Done ((nfd, o) :: t) (Ok nfd).
+Proof.
+  intros HP Hfd Holt Hnl Hpath Hlen Hacc Hdir.
+  destruct (run_reopen_strong pf t fd o exp flags HP Hfd Holt Hnl Hpath Hlen Hacc Hdir) as (nfd & H & _). exists nfd. exact H.
 Qed.
 
 End RO.
